@@ -224,14 +224,18 @@ handshakes), so this corner is latent.  It holds outside that decidable region, 
 bracket-free SNI: -/
 
 theorem strict_binds_routing_host_partial (sites : List Bytes) (sni host : Bytes) (k : Nat)
-    (hx : bracketTrimmed host = false)
+    (hx : bracketTrimmed host = false) (hstar : ∀ s ∈ sites, noStar s = true)
     (hs : serve true sites (some sni) host = .handler (some k)) :
     ∃ site, sites[k]? = some site ∧ foldSame sni site := by
   have hrh : routingHost host = enforcementHost host := by simpa [bracketTrimmed] using hx
   obtain ⟨_, he, hr⟩ := serve_strict_handler sites sni host _ hs
   have hr : routeFrom 0 (routingHost host) sites = some k := by simpa [route] using hr.symm
   obtain ⟨_, site, h1, h2⟩ := routeFrom_some _ _ _ _ hr
-  refine ⟨site, by simpa using h1, ?_⟩
+  have h1' : sites[k]? = some site := by simpa using h1
+  refine ⟨site, h1', ?_⟩
+  have hns : site.contains cStar = false := by
+    have := hstar site (List.mem_of_getElem? h1'); simpa [noStar] using this
+  rw [hostMatch_noStar _ _ hns] at h2
   unfold foldSame
   rw [(equalFold_iff _ _).mp he, ← hrh, (equalFold_iff _ _).mp h2]
 
@@ -260,11 +264,11 @@ theorem strict_pass_not_bracketTrimmed (sites : List Bytes) (sni host : Bytes) (
 
 /-- strict SNI-Host binds the routed site to the SNI up to EqualFold (every SNI without brackets) -/
 theorem strict_binds_routing_host (sites : List Bytes) (sni host : Bytes) (k : Nat)
-    (hsni : noBrackets sni = true)
+    (hsni : noBrackets sni = true) (hstar : ∀ s ∈ sites, noStar s = true)
     (hs : serve true sites (some sni) host = .handler (some k)) :
     ∃ site, sites[k]? = some site ∧ foldSame sni site :=
   strict_binds_routing_host_partial sites sni host k
-    (strict_pass_not_bracketTrimmed sites sni host _ hsni hs) hs
+    (strict_pass_not_bracketTrimmed sites sni host _ hsni hs) hstar hs
 
 theorem strict_binds_catch_all (sites : List Bytes) (sni host : Bytes) (site : Option Nat)
     (hsni : noBrackets sni = true)
@@ -284,12 +288,12 @@ reproduced then with a real handshake; regression lines in corpus/C19).  The che
 refuses non-ASCII server names, and on ASCII names the two equivalences coincide: -/
 
 theorem strict_binds_policy_name (sites : List Bytes) (sni host : Bytes) (k : Nat)
-    (hsni : noBrackets sni = true)
+    (hsni : noBrackets sni = true) (hstar : ∀ s ∈ sites, noStar s = true)
     (hsites : ∀ s ∈ sites, isAscii s = true)
     (hs : serve true sites (some sni) host = .handler (some k)) :
     ∃ site, sites[k]? = some site ∧ namesSameHost sni site := by
   obtain ⟨hascii, _, _⟩ := serve_strict_handler sites sni host _ hs
-  obtain ⟨site, h1, h2⟩ := strict_binds_routing_host sites sni host k hsni hs
+  obtain ⟨site, h1, h2⟩ := strict_binds_routing_host sites sni host k hsni hstar hs
   refine ⟨site, h1, ?_⟩
   have hm : site ∈ sites := List.mem_of_getElem? h1
   unfold namesSameHost
@@ -307,7 +311,7 @@ theorem strict_binds_policy_name (sites : List Bytes) (sni host : Bytes) (k : Na
 theorem client_auth_not_bypassed (ps : List Policy) (sites : List Bytes) (sni host site : Bytes)
     (v : Nat → Bool) (k : Nat)
     (hauth : ∃ p ∈ ps, p.clientAuth = true)
-    (hsni : noBrackets sni = true)
+    (hsni : noBrackets sni = true) (hstar : ∀ s ∈ sites, noStar s = true)
     (hsites : ∀ s ∈ sites, isAscii s = true)
     (hs : serve (effectiveStrict none ps) sites (some sni) host = .handler (some k))
     (hk : sites[k]? = some site) :
@@ -315,7 +319,7 @@ theorem client_auth_not_bypassed (ps : List Policy) (sites : List Bytes) (sni ho
   have hstrict : effectiveStrict none ps = true :=
     (strict_auto_enabled_iff none ps).mpr (Or.inr ⟨rfl, hauth⟩)
   rw [hstrict] at hs
-  obtain ⟨site', h1, h2⟩ := strict_binds_policy_name sites sni host k hsni hsites hs
+  obtain ⟨site', h1, h2⟩ := strict_binds_policy_name sites sni host k hsni hstar hsites hs
   rw [hk] at h1; cases h1
   rw [first_match_dead_index, first_match_dead_index]
   exact firstMatchFrom_congr ⟨sni, v⟩ ⟨site, v⟩ ps 0 h2 rfl
@@ -477,12 +481,12 @@ example : calledBefore "b" "a" ["a", "b"] = false ∧ calledBefore "a" "c" ["a",
 /-- the core of the no-bypass argument, for any way strict checking came to be in effect -/
 theorem strict_binds_policy (ps : List Policy) (sites : List Bytes) (sni host site : Bytes)
     (v : Nat → Bool) (k : Nat)
-    (hsni : noBrackets sni = true)
+    (hsni : noBrackets sni = true) (hstar : ∀ s ∈ sites, noStar s = true)
     (hsites : ∀ s ∈ sites, isAscii s = true)
     (hs : serve true sites (some sni) host = .handler (some k))
     (hk : sites[k]? = some site) :
     choose false ps ⟨sni, v⟩ = choose false ps ⟨site, v⟩ := by
-  obtain ⟨site', h1, h2⟩ := strict_binds_policy_name sites sni host k hsni hsites hs
+  obtain ⟨site', h1, h2⟩ := strict_binds_policy_name sites sni host k hsni hstar hsites hs
   rw [hk] at h1; cases h1
   rw [first_match_dead_index, first_match_dead_index]
   exact firstMatchFrom_congr ⟨sni, v⟩ ⟨site, v⟩ ps 0 h2 rfl
@@ -588,7 +592,7 @@ theorem caddyfile_client_auth_site_bound (sites : List Site) (cfg : Option Bool)
     (hcfg : cfg ≠ some false)
     (hk : sites[k]? = some (name, some conf))
     (hb : provisionPolicyCA (some conf) = some b) (hreq : b.bits.auth ≠ .noClientCert)
-    (hsni : noBrackets sni = true)
+    (hsni : noBrackets sni = true) (hstar : ∀ s ∈ sites, noStar s.1 = true)
     (hnames : ∀ s ∈ sites, isAscii s.1 = true)
     (hs : serve (effectiveStrict cfg ((adaptPolicies sites).map (·.1))) (sites.map (·.1)) (some sni) host
             = .handler (some k)) :
@@ -607,7 +611,10 @@ theorem caddyfile_client_auth_site_bound (sites : List Site) (cfg : Option Bool)
       unfold adaptPolicies
       refine List.mem_append_left _ (List.mem_filterMap.mpr ⟨(name, some conf), hmem, rfl⟩)
   rw [hstrict] at hs
-  refine strict_binds_policy _ (sites.map (·.1)) sni host name v k hsni ?_ hs ?_
+  refine strict_binds_policy _ (sites.map (·.1)) sni host name v k hsni ?_ ?_ hs ?_
+  · intro s hs'
+    obtain ⟨x, hx, rfl⟩ := List.mem_map.mp hs'
+    exact hstar x hx
   · intro s hs'
     obtain ⟨x, hx, rfl⟩ := List.mem_map.mp hs'
     exact hnames x hx
@@ -665,9 +672,9 @@ example : noBrackets nAup = true ∧ noBrackets [91, 97, 93] = false := by decid
 example : bracketTrimmed (nAup ++ cColon :: [52, 52, 51]) = false ∧ bracketTrimmed [91, 58, 58, 49, 93, 58, 56, 48] = false := by decide
 -- the no-bypass hypothesis set is inhabited
 example : (∃ p ∈ exPolicies, p.clientAuth = true) ∧ noBrackets nAup = true ∧
-    (∀ s ∈ [nA], isAscii s = true) ∧
+    (∀ s ∈ [nA], noStar s = true) ∧ (∀ s ∈ [nA], isAscii s = true) ∧
     serve (effectiveStrict none exPolicies) [nA] (some nAup) (nA ++ cColon :: [56, 48]) = .handler (some 0) := by
-  refine ⟨⟨_, List.mem_cons_of_mem _ (List.mem_cons_of_mem _ (List.mem_cons_self ..)), rfl⟩, by decide, by decide, by decide⟩
+  refine ⟨⟨_, List.mem_cons_of_mem _ (List.mem_cons_of_mem _ (List.mem_cons_self ..)), rfl⟩, by decide, by decide, by decide, by decide⟩
 -- a non-ASCII SNI is refused whatever the Host
 example : serve true [[115, 46, 116]] (some [128, 46, 116]) [115, 46, 116] = .misdirected ∧
     serve true [[115, 46, 116]] (some [128, 46, 116]) [128, 46, 116] = .misdirected := by decide
